@@ -31,7 +31,7 @@ func init() {
 	})
 	register(&Prop{
 		ID: "C17", Level: "exploration",
-		Rule:        "long sequential histories with 1-3 roots and a directory limit of 100 (and 0, 1, 99 to exercise the clamp to 100): several hundred live keys so that directories fill up and rotate, delete waves followed by collector passes and drains so that rotated-out directories regain room, reopens; after EVERY step the tree below the roots is walked: every regular file lies exactly at root/<uuid>/<file>, every entry directly below a root is a UUID-named directory, no directory holds more than max(limit,100) entries, every root offers a directory to write to (the candidates the directory repository returns); a directory that regained room must be among the candidates and, when there are at most two candidates, receive a file within 64 later writes. evaluations = steps after which the tree was checked; distinct_nontrivial = distinct (configuration, event) pairs among {rotation, re-activation of a directory, reuse of a re-activated directory, reopen scan}",
+		Rule:        "long sequential histories with 1-3 roots and a directory limit of 100, 128, 150 or 260 (and 0, 1, 99 to exercise the clamp to 100): several hundred live keys so that directories fill up and rotate, delete waves followed by collector passes and drains so that rotated-out directories regain room, reopens; after EVERY step the tree below the roots is walked: every regular file lies exactly at root/<uuid>/<file>, every entry directly below a root is a UUID-named directory, no directory holds more than max(limit,100) entries, every root offers a directory to write to (the candidates the directory repository returns); a directory that regained room must be among the candidates and, when there are at most two candidates, receive a file within 64 later writes. evaluations = steps after which the tree was checked; distinct_nontrivial = distinct (configuration, event) pairs among {rotation, re-activation of a directory, reuse of a re-activated directory, reopen scan}",
 		Assumptions: []string{"the harness puts nothing else below the roots"},
 		Roles:       map[string]Role{"main": {N: func(t string) int { return tierN(t, 8, 128) }, Case: c17Case}},
 	})
@@ -231,11 +231,15 @@ var uuidRe = regexp.MustCompile(`^[0-9a-f]{8}-[0-9a-f]{4}-[0-9a-f]{4}-[0-9a-f]{4
 func c17Case(tier string, seed int64, idx int, scratch string) rt.CaseResult {
 	var c rt.CaseResult
 	rng := seqrun.Rng(seed, "C17", idx)
-	limits := []uint64{100, 100, 0, 1, 99, 100, 100, 100}
+	limits := []uint64{100, 150, 0, 1, 99, 128, 100, 260}
 	limit := limits[idx%len(limits)]
 	eff := int(limit)
 	if eff < 100 {
 		eff = 100
+	}
+	big := 1
+	if eff > 100 {
+		big = 2 // enough files to fill directories of the larger limits too
 	}
 	nroots := 1 + idx%3
 	eo := dbx.Options{Mode: dbx.Inline, Dir: filepath.Join(scratch, "db"), Roots: nroots, MaxDirCount: limit, MaxDirExplicit: true}
@@ -276,7 +280,7 @@ func c17Case(tier string, seed int64, idx int, scratch string) rt.CaseResult {
 		}
 		steps = append(steps, seqrun.Step{Op: "collect", Actor: -1}, seqrun.Step{Op: "drain", Actor: -1}, seqrun.Step{Op: "mark-reactivation", Actor: -1})
 	}
-	scale := tierN(tier, 1, 3)
+	scale := tierN(tier, 1, 3) * big
 	add(120 * nroots * scale)
 	add(140 * scale)
 	if idx%4 >= 2 {
